@@ -489,9 +489,14 @@ func (s Subtitles) WriteToWebVTT(o io.Writer) (err error) {
 	c = append(c, []byte("\n\n")...)
 
 	var style []string
-	for _, s := range s.Styles {
-		if s.InlineStyle != nil {
-			style = append(style, s.InlineStyle.WebVTTStyles...)
+	var styleIDs []string
+	for id := range s.Styles {
+		styleIDs = append(styleIDs, id)
+	}
+	sort.Strings(styleIDs)
+	for _, id := range styleIDs {
+		if s.Styles[id].InlineStyle != nil {
+			style = append(style, s.Styles[id].InlineStyle.WebVTTStyles...)
 		}
 	}
 
